@@ -10,6 +10,7 @@
 package main
 
 import (
+	"sync/atomic"
 	"bytes"
 	"encoding/binary"
 	"fmt"
@@ -266,7 +267,7 @@ func main() {
 	if run.Thorough() {
 		maxLen = 5
 	}
-	run.Set("rule", "All sequences of length 1..maxLen over the private-key alphabet {a, b, r-a, 1, r-1} (contains every permutation, duplicates, inverse pairs and sums equal to the identity). Every sequence is run under 4 policies for the internal representation of the public-key objects (affine from PublicKey(); projective with Z != 1 from RemoveBLSPublicKeys; two mixes). Per sequence: every set partition of the positions as a nesting (Agg of each block, then Agg of the results; singleton blocks go through a one-element Agg) plus left and right folds, for private keys, public keys and signatures under 4 (message, tag) contexts; the signature of the aggregated private key; RemoveBLSPublicKeys(Agg(all), B) for every subset B of the positions (incl. empty and everything), given as individual keys and as one pre-aggregated key; identity encodings / IsBLSSignatureIdentity / Equals(IdentityBLSPublicKey) on cancelling sequences; Verify of the aggregate under the aggregate key. Long lists: lengths 2^k-1, 2^k, 2^k+1 for k=3..9 (thorough 10) and 100, 200, 300 for all five operations incl. nested halves and a malformed signature at the first/middle/last position. Error shapes: empty lists, malformed signature of 7 kinds at each position, off-group signature at each position (accepted by design), ECDSA key at each position. Oracle: sum of scalars mod r, [sum]g2 and [sum]H(m) in math/big, compared as bytes through the c0||c1 codec. A case is distinct/non-trivial per (sequence, nesting, object kind) and per (sequence, removed subset).")
+	run.Set("rule", "All sequences of length 1..maxLen over the private-key alphabet {a, b, r-a, 1, r-1} (contains every permutation, duplicates, inverse pairs and sums equal to the identity). Every sequence is run under 4 policies for the internal representation of the public-key objects (affine from PublicKey(); projective with Z != 1 from RemoveBLSPublicKeys; two mixes). Per sequence: every set partition of the positions as a nesting (Agg of each block, then Agg of the results; singleton blocks go through a one-element Agg) plus left and right folds, for private keys, public keys and signatures under 4 (message, tag) contexts; the signature of the aggregated private key; RemoveBLSPublicKeys(Agg(all), B) for every subset B of the positions (incl. empty and everything), given as individual keys and as one pre-aggregated key; identity encodings / IsBLSSignatureIdentity / Equals(IdentityBLSPublicKey) on cancelling sequences; Verify of the aggregate under the aggregate key. Cache patterns: every sequence of length 2..3 (thorough 4) with fresh private-key objects under every pattern of which inputs already had PublicKey() called. Long lists: lengths 2^k-1, 2^k, 2^k+1 for k=3..9 (thorough 10) and 100, 200, 300 for all five operations incl. nested halves and a malformed signature at the first/middle/last position. Error shapes: empty lists, malformed signature of 7 kinds at each position, off-group signature at each position (accepted by design), ECDSA key at each position. Oracle: sum of scalars mod r, [sum]g2 and [sum]H(m) in math/big, compared as bytes through the c0||c1 codec. A case is distinct/non-trivial per (sequence, nesting, object kind) and per (sequence, removed subset).")
 	run.Set("max_sequence_length", maxLen)
 	run.Set("alphabet", []string{"a", "b", "r-a", "1", "r-1"})
 
@@ -573,6 +574,12 @@ func main() {
 	run.Sample(replay(mid, map[string]any{"kind": "sequence x all partitions/folds x all removal subsets", "partitions": len(parts[len(mid.seq)])}))
 	run.Sample(replay(cases[7], map[string]any{"kind": "cancelling pair", "expected_public_key": ev.Hex(idEnc)}))
 
+	// lazily cached public keys: AggregateBLSPrivateKeys may look at (or pre-fill from) the cached
+	// public keys of its inputs. Every sequence up to length 3 (thorough 4) with FRESH private-key
+	// objects under EVERY pattern of which inputs already had PublicKey() called: the aggregated
+	// key's public key, signature and the aggregated public keys must agree with the reference.
+	cachePatterns(r, run.Thorough())
+
 	// long lists: every length 2^k-1, 2^k, 2^k+1 up to 1025 (quick 513) - internal batching, chunking
 	// or tree splitting in the C layer has its boundaries at such lengths. The list cycles through the
 	// alphabet with a length-dependent rotation; private keys, public keys (affine and projective
@@ -806,4 +813,75 @@ func longLists(r *big.Int, thorough bool) {
 		}
 		run.Distinct(fmt.Sprintf("long/%d", L))
 	})
+}
+
+
+func cachePatterns(r *big.Int, thorough bool) {
+	maxL := 3
+	if thorough {
+		maxL = 4
+	}
+	var seqs [][]int
+	var gen func(cur []int)
+	gen = func(cur []int) {
+		if len(cur) >= 2 {
+			seqs = append(seqs, append([]int{}, cur...))
+		}
+		if len(cur) == maxL {
+			return
+		}
+		for i := range syms {
+			gen(append(cur, i))
+		}
+	}
+	gen(nil)
+	var n int64
+	ev.Par(len(seqs), func(si int) {
+		seq := seqs[si]
+		L := len(seq)
+		sum := new(big.Int)
+		for _, x := range seq {
+			sum.Add(sum, syms[x].k)
+		}
+		sum.Mod(sum, r)
+		wantPK := refPK(sum)
+		for mask := 0; mask < 1<<L; mask++ {
+			sks := make([]crypto.PrivateKey, L)
+			pks := make([]crypto.PublicKey, L)
+			for i, x := range seq {
+				sks[i] = mustSK(syms[x].k) // fresh object: nothing cached
+				if mask>>i&1 == 1 {
+					sks[i].PublicKey()
+				}
+				pks[i] = syms[x].pk
+			}
+			ag, err := crypto.AggregateBLSPrivateKeys(sks)
+			atomic.AddInt64(&n, 1)
+			rp := map[string]any{"sequence": seqCase{seq: seq}.String(), "public_key_already_computed_mask": mask}
+			if err != nil {
+				run.Violation("cache:agg-private:error", fmt.Sprintf("AggregateBLSPrivateKeys failed: %v", err), rp)
+				continue
+			}
+			if !bytes.Equal(ag.Encode(), refbls.ScalarBytes(sum)) {
+				run.Violation("cache:agg-private:sum-mismatch", "aggregated private key is not the sum of the scalars", rp)
+			}
+			got := ag.PublicKey()
+			if !bytes.Equal(got.Encode(), wantPK) {
+				rp["got"], rp["expected"] = ev.Hex(got.Encode()), ev.Hex(wantPK)
+				run.Violation("cache:agg-private:public-key-mismatch", fmt.Sprintf("PublicKey() of the aggregated private key is not [sum]g2 when the inputs' public keys were computed beforehand according to mask %b", mask), rp)
+			}
+			if apk, err := crypto.AggregateBLSPublicKeys(pks); err != nil || !apk.Equals(got) || !got.Equals(apk) {
+				run.Violation("cache:agg-private:not-equal-to-aggregated-public-keys", "PublicKey() of the aggregated private key does not Equal the aggregated public keys", rp)
+			}
+			// and the inputs themselves are unharmed
+			for i, x := range seq {
+				if !bytes.Equal(sks[i].PublicKey().Encode(), syms[x].pk.Encode()) {
+					run.Violation("cache:input-key-public-key-changed", "an input key's PublicKey() changed by being aggregated", rp)
+				}
+			}
+		}
+		run.Distinct(fmt.Sprintf("cache/%v", seq))
+	})
+	run.Add("evaluations", n)
+	run.Set("cache_pattern_cases", n)
 }
